@@ -199,9 +199,9 @@ ix!(c04_t_multipatch_2_bytes, Multipatch, 800, [spec_k(&[3], &[0], &[], &[]), sp
 ix!(c04_t_multipatch_2_nth, Multipatch, 800, [spec_k(&[3], &[0], &[], &[]), spec_k(&[3, 4], &[1, 5], &[], &[1])], false, 1);
 // H: part=reader: iteration with index + size hints, iteration without index; tier=thorough; sym=Multipatch [strip 3] then [fan 3, ring closed 4]; asserts=as above
 ix!(c04_t_multipatch_2_iter, Multipatch, 800, [spec_k(&[3], &[0], &[], &[]), spec_k(&[3, 4], &[1, 5], &[], &[1])], false, 2);
-// H: part=.shx bytes vs independent walk of the .shp; tier=thorough; sym=PolygonM [closed 4] then [closed 4, open 3]; asserts=as above
-ix!(c04_t_polygonm_2_bytes, PolygonM, 704, [spec_k(&[4], &[0], &[], &[0]), spec_k(&[4, 3], &[0, 1], &[1], &[0])], false, 0);
-// H: part=reader: shape_count and random access at 0..=n+1; tier=thorough; sym=PolygonM [closed 4] then [closed 4, open 3]; asserts=as above
-ix!(c04_t_polygonm_2_nth, PolygonM, 704, [spec_k(&[4], &[0], &[], &[0]), spec_k(&[4, 3], &[0, 1], &[1], &[0])], false, 1);
-// H: part=reader: iteration with index + size hints, iteration without index; tier=thorough; sym=PolygonM [closed 4] then [closed 4, open 3]; asserts=as above
-ix!(c04_t_polygonm_2_iter, PolygonM, 704, [spec_k(&[4], &[0], &[], &[0]), spec_k(&[4, 3], &[0, 1], &[1], &[0])], false, 2);
+// H: part=.shx bytes vs independent walk of the .shp; tier=thorough; sym=PolylineM records [2] then [2,3]; asserts=as above
+ix!(c04_t_polylinem_2_23_bytes, PolylineM, 704, [spec(&[2]), spec(&[2, 3])], false, 0);
+// H: part=reader: shape_count and random access at 0..=n+1; tier=thorough; sym=PolylineM records [2] then [2,3]; asserts=as above
+ix!(c04_t_polylinem_2_23_nth, PolylineM, 704, [spec(&[2]), spec(&[2, 3])], false, 1);
+// H: part=reader: iteration with index + size hints, iteration without index; tier=thorough; sym=PolylineM records [2] then [2,3]; asserts=as above
+ix!(c04_t_polylinem_2_23_iter, PolylineM, 704, [spec(&[2]), spec(&[2, 3])], false, 2);
